@@ -587,6 +587,9 @@ class OpensslVersion(Version):
             return NotImplemented
         return self.value.__eq__(other.value)
 
+    def __hash__(self):
+        return hash(self.value)
+
     def __lt__(self, other):
         if not isinstance(other, self.__class__):
             return NotImplemented
